@@ -79,7 +79,10 @@ def make_message(p, s, cyc):
     return m
 
 
-def run_once(plan_, nprod, nmsg, cycles, concurrent_stop, failmask, second_writer=False, slow=False, nested=False, stray=0):
+RUNS = [0]
+
+
+def run_once(plan_, nprod, nmsg, cycles, concurrent_stop, failmask, second_writer=False, slow=False, nested=False, stray=0, prebuffer=0):
     tape = Tape()
     calls = [0]
     release = [not slow]
@@ -144,6 +147,16 @@ def run_once(plan_, nprod, nmsg, cycles, concurrent_stop, failmask, second_write
 
     def controller():
         idents["S"] = _thread.get_ident()
+        first_run = RUNS[0] == 0
+        RUNS[0] += 1
+        if prebuffer and first_run:
+            # (only in the first schedule of this process: afterwards eliot no longer buffers)
+            # messages logged through eliot before any destination exists are buffered; the writer, registered first, is offered
+            # them by startService itself and has to write them like any other
+            for k in range(prebuffer):
+                tape.add("offer_call", p="pre", ms=k, cyc=0)
+                eliot.Logger().write({"p": "pre", "seq": k, "cyc": 0})
+                tape.add("offer_ret", p="pre", ms=k, cyc=0)
         for cyc in range(cycles):
             if stray and (cyc + stray) % 2 == 0:
                 stray_stop("before cycle %d" % cyc)
@@ -425,11 +438,12 @@ def run_case(spec):
     second_writer = rng.random() < 0.25
     nested = rng.random() < 0.3
     stray = rng.choice([0, 0, 1, 2])
+    prebuffer = rng.choice([0, 0, 2, 3]) if not second_writer else 0
     names = ["S"] + ["P%d" % p for p in range(nprod)] + ["dyn%d" % (k + 1) for k in range((4 if second_writer else 2) * cycles)]
     c = res["counters"]
 
     def execute(plan_, label):
-        st, tape, idents, problems = run_once(plan_, nprod, nmsg, cycles, concurrent_stop, failmask, second_writer, nested=nested, stray=stray)
+        st, tape, idents, problems = run_once(plan_, nprod, nmsg, cycles, concurrent_stop, failmask, second_writer, nested=nested, stray=stray, prebuffer=prebuffer)
         if nested:
             c["schedules_with_a_logging_destination"] = c.get("schedules_with_a_logging_destination", 0) + 1
         res["evals"] += 1
